@@ -248,3 +248,11 @@ Fixpoint lputs (ls : list label) : list (nat * bytes) :=
 Definition put_of (e : entry) : nat * bytes := (e_thr e, e_msg e).
 (* worker steps that certainly suffice to write the frames of l completely, given a ready transport *)
 Definition cost (l : list entry) : nat := fold_right (fun e a => 6 + length (e_frame e) + a)%nat 2%nat l.
+(* the entries a trace puts: (thread, message, _base in force at the put), in trace order; b = _base before the trace *)
+Fixpoint lentries (b : base) (ls : list label) : list entry :=
+  match ls with
+  | [] => []
+  | LPut t m :: r => (t, m, b) :: lentries b r
+  | LSetBase b' :: r => lentries b' r
+  | _ :: r => lentries b r
+  end.
